@@ -21,6 +21,7 @@ import shutil
 import sys
 import tempfile
 import traceback
+import zlib
 
 HERE = os.path.dirname(os.path.abspath(__file__))
 if os.path.join(HERE, 'mods') not in sys.path:
@@ -352,6 +353,22 @@ def do_action(api, env, context, act, orders, rec):
     elif op == 'position':
         p = api.get_position(act['id'], getattr(__import__('rqalpha.const', fromlist=['x']).POSITION_DIRECTION, act.get('dir', 'LONG')))
         res = dict(quantity=fnum(p.quantity), last_price=fnum(p.last_price), closable=fnum(p.closable))
+    elif op == 'future_contracts':
+        res = list(api.get_future_contracts(act['und']))
+    elif op == 'instruments':
+        r = api.instruments(act['id'])
+        res = None if r is None else dict(id=r.order_book_id, type=str(r.type), listed=str(r.listed_date)[:10], lot=fnum(r.round_lot))
+    elif op == 'feedback':
+        # an order computed from everything the strategy has observed so far
+        h = getattr(rec, 'digest', 0)
+        oid = act['ids'][h % len(act['ids'])]
+        if oid in W.FUTS:
+            f = [api.buy_open, api.sell_open, api.sell_close, api.buy_close][(h // 11) % 4]
+            r = f(oid, (h // 7) % 3 + 1)
+            ret = r if isinstance(r, list) else [r]
+        else:
+            ret = [api.order_shares(oid, ((h // 7) % 5 + 1) * 100 * (1 if (h // 5) % 3 else -1))]
+        res = dict(digest=h)
     elif op == 'mgmt_fee':
         context.portfolio.accounts[act['acc']].set_management_fee_rate(act['rate'])
     else:
@@ -387,6 +404,10 @@ def run_scenario(scn, light=False, extra_init=None, keep_bundle=None, world=None
     rng = random.Random(scn['world_seed'])
     w = world or W.gen_world(rng, scn.get('world_opts'))
     W.apply_overrides(w, scn.get('world_overrides'))
+    if scn.get('prune_world') is not None:
+        W.prune(w, scn['prune_world'])
+    if scn.get('future_mut'):
+        W.mutate_future(w, scn['future_mut'])
     bundle = keep_bundle or tempfile.mkdtemp(prefix='vb_', dir=SCRATCH_ROOT)
     try:
         if not os.path.exists(os.path.join(bundle, 'trading_dates.npy')):
@@ -421,6 +442,8 @@ def run_scenario(scn, light=False, extra_init=None, keep_bundle=None, world=None
                     if act['op'] in ('raise', 'raise_api') or act.get('fatal'):
                         rec.mark('api1', act=act, ret=ret, res=res, exc=exc)
                         raise
+                if act['op'] != 'cancel':
+                    rec.digest = zlib.crc32(repr((res, [(o.get('status'), o.get('qty'), o.get('filled')) for o in ret], exc and exc['cls'])).encode(), getattr(rec, 'digest', 0))
                 rec.mark('api1', act=act, ret=ret, res=res, exc=exc)
             rec.mark('user1', ph=ph, day=i, bar=k)
 
@@ -447,6 +470,8 @@ def run_scenario(scn, light=False, extra_init=None, keep_bundle=None, world=None
             for reg in scn.get('sched', []):
                 install_sched(api, reg, rec)
             context._bar_dict = None
+            if scn.get('record_proc'):
+                rec.mark('proc', proc=proc_state(env))
             rec.mark('user0', ph='init', day=-1, bar=0)
             for act in script.get('-1|init|0', []):
                 rec.mark('api0', act=act, ph='init', day=-1, bar=0)
@@ -496,6 +521,19 @@ def run_scenario(scn, light=False, extra_init=None, keep_bundle=None, world=None
             shutil.rmtree(bundle, ignore_errors=True)
 
 
+def proc_state(env):
+    """process-wide state a run can see: class-level switches, the environment singleton, the margin switch, memoised results"""
+    from rqalpha.environment import Environment
+    from rqalpha.mod.rqalpha_mod_sys_accounts.position_model import StockPosition
+    from rqalpha.portfolio.account import Account
+    from rqalpha.core.execution_context import ExecutionContext
+    from rqalpha.utils import functools as F
+    return dict(reinvest=bool(StockPosition.dividend_reinvestment), cash_return=bool(StockPosition.cash_return_by_stock_delisted),
+                t1=bool(StockPosition.t_plus_enabled), env_is_current=Environment.get_instance() is env,
+                margin_switch_on=not hasattr(Account, '_margin'),
+                cached_entries=sum(f.cache_info().currsize for f in F.cached_functions))
+
+
 def install_sched(api, reg, rec):
     """reg: dict(kind=daily|weekly|monthly, weekday=, tradingday=, time=None|('before_trading',)|('open',m)|('close',m)|('phys',h,m), tag=, act=optional action)"""
     from rqalpha.mod.rqalpha_mod_sys_scheduler import scheduler as S
@@ -524,6 +562,7 @@ def install_sched(api, reg, rec):
                 ret, res = do_action(api, env, context, reg['act'], [], rec)
             except Exception as e:
                 exc = dict(cls=type(e).__name__, msg=str(e)[:120])
+            rec.digest = zlib.crc32(repr((res, [(o.get('status'), o.get('qty'), o.get('filled')) for o in ret], exc and exc['cls'])).encode(), getattr(rec, 'digest', 0))
             rec.mark('api1', act=reg['act'], ret=ret, res=res, exc=exc)
 
     kw = {}
